@@ -107,7 +107,8 @@ Print Assumptions c14_changed_in_effect.
     end, idle, leave; PAUSE, RESUME; held clients go on); the next transaction of a client whose (pool, user) is
     in the new configuration — whether it begins then ([OBegin]) or was HELD by PAUSE since before the reload and
     goes on now ([OWake]; [start_op] picks the one that applies) — runs on a server of such an object, with the
-    client's clone being that object and the idle timeout of the new file. *)
+    client's clone AND its query router's settings ([cset]: plugins, parser flags, sharding function and shard
+    count, default role) being those of that object, and the idle timeout of the new file. *)
 Theorem c14_changed_in_effect_txn : forall hashf w c bo w1 ops w2 obs cl x pd us,
   winv hashf w -> wf_cfg c ->
   step hashf w (OReload (Valid c bo)) = (w1, ObReload (ROk true)) ->
@@ -119,7 +120,7 @@ Theorem c14_changed_in_effect_txn : forall hashf w c bo w1 ops w2 obs cl x pd us
     In {| sid := s; spool := p; sholder := Some cl |} (servers w3) /\
     In (p, ((cdb x, cuser x), pd')) (objs w2) /\ hashf pd' = hashf pd /\
     (no_reuse hashf (pools (st w)) (cdb x, cuser x) pd -> next_pool w <= p /\ pd' = pd) /\
-    cl_lookup cl (clients w3) = Some y /\ cclone y = p /\ ctmo y = cidle c.
+    cl_lookup cl (clients w3) = Some y /\ cclone y = p /\ cset y = p /\ ctmo y = cidle c.
 Proof. exact changed_in_effect_txn. Qed.
 Print Assumptions c14_changed_in_effect_txn.
 
@@ -154,7 +155,7 @@ Print Assumptions c14_inflight_unbroken.
 Theorem c14_inflight_ends : forall hashf w c x s srv,
   cl_lookup c (clients w) = Some x -> cheld x = Some s -> In srv (servers w) -> sholder srv = Some c ->
   exists w', step hashf w (OEnd c) = (w', ObEnded) /\
-             cl_lookup c (clients w') = Some {| cdb := cdb x; cuser := cuser x; cclone := cclone x; cheld := None; ctmo := ctmo x |} /\
+             cl_lookup c (clients w') = Some {| cdb := cdb x; cuser := cuser x; cclone := cclone x; cheld := None; ctmo := ctmo x; cset := cset x |} /\
              (spool srv = cclone x -> In {| sid := sid srv; spool := spool srv; sholder := None |} (servers w')).
 Proof. exact inflight_end. Qed.
 Print Assumptions c14_inflight_ends.
@@ -309,7 +310,7 @@ Theorem c14_held_reads_at_start : forall hashf w c x,
   existsb (key_eqb (cdb x, cuser x)) (paused w) = false ->
   match begin_txn (st w) (cdb x) (cuser x) with
   | Some p => exists w' s f, step hashf w (OWake c) = (w', ObBegun p s f) /\
-                cl_lookup c (clients w') = Some {| cdb := cdb x; cuser := cuser x; cclone := p; cheld := Some s; ctmo := cidle (config (st w)) |} /\
+                cl_lookup c (clients w') = Some {| cdb := cdb x; cuser := cuser x; cclone := p; cheld := Some s; ctmo := cidle (config (st w)); cset := p |} /\
                 In {| sid := s; spool := p; sholder := Some c |} (servers w')
   | None => exists w', step hashf w (OWake c) = (w', ObNoPool) /\ cl_lookup c (clients w') = None /\
                 st w' = st w /\ (forall y, In y (servers w') -> In y (servers w))
@@ -327,6 +328,55 @@ Theorem c14_mutant_wake_stale_refuted :
               exists w' s, step idh w (OWake 0) = (w', ObBegun 2 s true).
 Proof. exact wake_stale_refuted. Qed.
 Print Assumptions c14_mutant_wake_stale_refuted.
+
+(** A reload that does not answer Ok(true) — unreadable, invalid, unchanged, build failed, build panicked — leaves the
+    registered pools, the PAUSE flags, the ban lists, the clients and the waiters as they were. *)
+Theorem c14_refused_reload_keeps_flags : forall hashf w fo w' r, step hashf w (OReload fo) = (w', ObReload r) -> r <> ROk true ->
+  pools (st w') = pools (st w) /\ paused w' = paused w /\ bans w' = bans w /\ clients w' = clients w /\ waiting w' = waiting w.
+Proof. exact refused_reload_keeps_flags. Qed.
+Print Assumptions c14_refused_reload_keeps_flags.
+
+(** Ban lists belong to pool objects.  After ANY reload, per (pool, user): either the registered object is the one that
+    was registered before (unchanged definition: its bans stay, c14_reload_keeps_bans), or it was built by this
+    reload and has no ban at all — bans of the replaced object do not carry over, and the new object's list is
+    sized by its own definition (pool.rs from_config: one empty map per shard). *)
+Theorem c14_rebuilt_pool_no_bans : forall hashf w fo w' ob k h p,
+  binv w -> step hashf w (OReload fo) = (w', ob) -> plookup k (pools (st w')) = Some (h, p) ->
+  plookup k (pools (st w)) = Some (h, p) \/ (forall i, ~ In (p, i) (bans w')).
+Proof. exact rebuilt_pool_no_bans. Qed.
+Print Assumptions c14_rebuilt_pool_no_bans.
+
+Theorem c14_reload_keeps_bans : forall hashf w fo w' ob, step hashf w (OReload fo) = (w', ob) -> bans w' = bans w.
+Proof. exact reload_keeps_bans. Qed.
+Print Assumptions c14_reload_keeps_bans.
+
+Theorem c14_binv_every_run : forall hashf ops w obs, run hashf empty_world ops = (w, obs) -> binv w.
+Proof. exact binv_every_run. Qed.
+Print Assumptions c14_binv_every_run.
+
+(** Mutants 5-7 (Mutants.v) refuted: inherited ban list; router settings not refreshed at the checkout; dropped pools
+    resumed before the build that then fails. *)
+Theorem c14_mutant_inherit_bans_refuted :
+  exists w, run idh empty_world ban_ops = (w, [ObReload (ROk true); ObAdmin true; ObAdmin true; ObReload (ROk true)]) /\
+            pools (st w) = [((0, 0), (11, 2)); ((1, 0), (20, 1))] /\ bans w = [(1, 1); (0, 1)] /\
+            (forall i, ~ In (2, i) (bans w)) /\
+            In (2, 1) (inherit_bans [((0, 0), (10, 0)); ((1, 0), (20, 1))] (pools (st w)) (bans w)).
+Proof. exact inherit_bans_refuted. Qed.
+Print Assumptions c14_mutant_inherit_bans_refuted.
+
+Theorem c14_mutant_stale_router_refuted :
+  exists w x, run idh empty_world session_ops = (w, [ObReload (ROk true); ObConnected 0; ObReload (ROk true); ObBegun 2 1 true]) /\
+              cl_lookup 0 (clients w) = Some x /\ cclone x = 2 /\ cset x = 2 /\
+              exists w0 x0, fst (run idh empty_world (firstn 3 session_ops)) = w0 /\ cl_lookup 0 (clients w0) = Some x0 /\ cset x0 = 0.
+Proof. exact stale_router_refuted. Qed.
+Print Assumptions c14_mutant_stale_router_refuted.
+
+Theorem c14_mutant_early_resume_refuted :
+  exists w, run idh empty_world refuse_ops = (w, [ObReload (ROk true); ObAdmin true; ObReload RErr]) /\
+            config (st w) = two_pools /\ has_pool (st w) (0, 0) = true /\ paused w = [(0, 0)] /\
+            early_resume drop_and_fail (paused w) = [].
+Proof. exact early_resume_refuted. Qed.
+Print Assumptions c14_mutant_early_resume_refuted.
 
 (** ------------------------------------------------------------------ non-vacuity *)
 
